@@ -75,6 +75,10 @@ def mag_fraction(mag):
     return v
 
 
+def tla_str(x):
+    return x.replace("\\", "\\\\").replace('"', '\\"')
+
+
 def tla_pack(pack, key):
     return "<<" + ", ".join("[b |-> %s, e |-> <<%d, %d>>]" % (key(bp["b"]), bp["n"], bp["d"]) for bp in pack) + ">>"
 
@@ -108,5 +112,9 @@ def write_catalogue_tla(ctx, cat, ids, prefixes=None, module="Catalogue"):
         module, ",\n".join(rows), ", ".join('"%s"' % i for i in ids))
     if pre:
         text += "PrefixDef == [\n%s ]\n" % ",\n".join(pre)
+        # prefix symbol = label of Prefix<Meters> minus the trailing "m"
+        text += "PrefixSymDef == [\n%s ]\n" % ",\n".join('  %s |-> "%s"' % (p_, tla_str(r["label"][:-1])) for p_, r in (prefixes or {}).items())
+    # own labels of the named units ("" = the unit defines no label of its own); an input, like the definitions
+    text += "LabelDef == [\n%s ]\n" % ",\n".join('  %s |-> "%s"' % (i, tla_str(cat[i].get("own_label", cat[i]["label"]))) for i in ids)
     text += "====\n"
     return ctx.write(module + ".tla", text)
